@@ -50,7 +50,7 @@ META = {
                  "TLC trace validation, race detector on a free-running child process",
 }
 
-NEED = ["reg.register.enter", "reg.unregister.enter", "w.mid", "list.players.iter", "list.players.step", "list.disconnectall.iter", "list.servers.iter", "list.servers.step",
+NEED = ["list.players.enter", "list.servers.enter", "list.range.enter", "list.disconnectall.enter", "reg.register.enter", "reg.unregister.enter", "w.mid", "list.players.iter", "list.players.step", "list.disconnectall.iter", "list.servers.iter", "list.servers.step",
         "list.range.iter", "list.range.step", "reg.register.insert", "reg.unregister.locked",
         "srv.register.insert", "srv.unregister.delete", "sp.add.locked", "sp.remove.locked", "w.enter"]
 
@@ -91,7 +91,7 @@ def crash_key(out):
     fm = FRAME.search(tail)
     fn = fm.group(1) if fm else "?"
     fn = re.sub(r"\.func\d+.*$", "", fn)
-    slug = re.sub(r"[^A-Za-z0-9]+", "-", msg.split(":", 1)[1].strip().lower())[:48].strip("-")
+    slug = re.sub(r"[^A-Za-z0-9]+", "-", re.sub(r"\d+", "N", msg.split(":", 1)[1].strip()).lower())[:48].strip("-")
     return "crash:%s:%s" % (fn, slug), msg
 
 
@@ -215,7 +215,7 @@ def run(ctx):
         lambda: must_violate(ctx, "Listing_header.cfg", "header copied, iterated after unlock", "NoIterWriteOverlap"),
         lambda: must_violate(ctx, "Listing_header_snap.cfg", "header copied, iterated after unlock", "SnapshotAtomic"),
         lambda: ctx.tlc("Listing", "Listing_sched.cfg", workers=1, count=False, heap="3g",
-                        simulate=ctx.pick(220, 6000), depth=16).printed_json("SCHED"),
+                        simulate=ctx.pick(220, 6000), depth=17).printed_json("SCHED"),
         lambda: [] if ctx.quick else ctx.tlc("Listing", "Listing_sched2.cfg", workers=1, count=False, heap="3g",
                                              simulate=2000, depth=24).printed_json("SCHED"),
     ])
